@@ -413,9 +413,20 @@ func (o *sop) coq(t *symtab) string {
 		return "OpRecv"
 	case "cancelrecv":
 		return hx.App("OpCancelRecv", hx.Nat(o.idx))
+	case "recvc":
+		return "OpRecvC"
+	case "sendc":
+		return hx.App("OpSendC", hx.Bytes(o.body))
+	case "hold":
+		return "OpHold"
+	case "release":
+		return "OpRelease"
 	case "resp":
 		if o.fail {
 			return "(OpResp PFail)"
+		}
+		if o.extra != nil {
+			return hx.App("OpResp2", respTerm(t, o.resp), respTerm(t, o.extra))
 		}
 		return hx.App("OpResp", respTerm(t, o.resp))
 	}
@@ -494,6 +505,7 @@ type scriptRunner struct {
 
 	reqSeen    int // requests of the current stream already reported
 	lastResp   *signaling_rpc.SessionResponse
+	lastResp2  *signaling_rpc.SessionResponse // second response of a back-to-back pair
 	endStreams []*scriptStream
 	descOps    []string
 	obsTerms   []string
@@ -523,6 +535,21 @@ func (r *scriptRunner) close() {
 	r.ref.Release()
 }
 
+// badResp: a RecvMsg whose message the implementation's own verification refuses, or an unknown body.
+func badResp(r *signaling_rpc.SessionResponse) bool {
+	switch b := r.GetBody().(type) {
+	case *signaling_rpc.SessionResponse_RecvMsg:
+		if b.RecvMsg == nil {
+			return false
+		}
+		_, _, err := b.RecvMsg.ExtractAndVerify()
+		return err != nil
+	case nil:
+		return true
+	}
+	return false
+}
+
 func classifyEnd(err error, last *signaling_rpc.SessionResponse) int {
 	switch {
 	case err == nil:
@@ -550,6 +577,14 @@ func classifyEnd(err error, last *signaling_rpc.SessionResponse) int {
 
 // apply performs one script operation, runs to quiescence and records the observation.
 func (r *scriptRunner) apply(o *sop) {
+	if o.kind == "resp" && !o.fail {
+		// the operation is what arrives on the wire (a nil RecvMsg, for instance, cannot be
+		// expressed there: it arrives as an empty message)
+		o.resp = wireForm(o.resp)
+		if o.extra != nil {
+			o.extra = wireForm(o.extra)
+		}
+	}
 	switch o.kind {
 	case "conn":
 		if r.cur == nil {
@@ -580,9 +615,12 @@ func (r *scriptRunner) apply(o *sop) {
 				r.cur.stream.in.fail(errStreamFailed)
 			} else {
 				r.lastResp = o.resp
-				r.cur.stream.in.push(o.resp.CloneVT())
+				r.cur.stream.pushResp(o.resp)
 				if o.extra != nil {
-					r.cur.stream.in.push(o.extra.CloneVT())
+					r.cur.stream.pushResp(o.extra)
+					r.lastResp2 = o.extra
+				} else {
+					r.lastResp2 = nil
 				}
 			}
 		}
@@ -594,6 +632,22 @@ func (r *scriptRunner) apply(o *sop) {
 		}
 	case "recv":
 		r.recvs = append(r.recvs, startRecv(r.ctx, r.ref, nil))
+	case "recvc":
+		cctx, cancel := context.WithCancel(r.ctx)
+		cancel()
+		r.recvs = append(r.recvs, startRecv(cctx, r.ref, nil))
+	case "sendc":
+		cctx, cancel := context.WithCancel(r.ctx)
+		cancel()
+		r.sends = append(r.sends, startSend(cctx, r.ref, o.body, nil))
+	case "hold":
+		if r.cur != nil && r.cur.stream != nil {
+			r.cur.stream.setHold(true)
+		}
+	case "release":
+		if r.cur != nil && r.cur.stream != nil {
+			r.cur.stream.setHold(false)
+		}
 	case "cancelrecv":
 		if o.idx < len(r.recvs) {
 			r.recvs[o.idx].cancel()
@@ -615,7 +669,11 @@ func (r *scriptRunner) apply(o *sop) {
 		done, err := r.cur.done, r.cur.err
 		r.cur.mu.Unlock()
 		if done {
-			ends = append(ends, classifyEnd(err, r.lastResp))
+			last := r.lastResp
+			if r.lastResp2 != nil && r.cur.stream != nil && badResp(r.lastResp2) && !badResp(r.lastResp) {
+				last = r.lastResp2
+			}
+			ends = append(ends, classifyEnd(err, last))
 			r.endStreams = append(r.endStreams, r.cur.stream)
 			r.cur = nil
 		}
@@ -671,13 +729,6 @@ func (r *scriptRunner) apply(o *sop) {
 	}
 	r.descOps = append(r.descOps, fmt.Sprintf("%s -> reqs=%d ends=%v up=%v", d, len(reqs), ends, up))
 	r.lastEnds, r.lastUp = ends, up
-	if o.kind == "resp" && o.extra != nil {
-		// the second response is a separate operation for the model: it must find the
-		// session already ended and change nothing
-		r.opTerms = append(r.opTerms, hx.App("OpResp", respTerm(r.tab, o.extra)))
-		r.obsTerms = append(r.obsTerms, hx.App("mkO", "[]", "[]", hx.Bool(up), tk, hx.List(sc), hx.List(rc)))
-		r.descOps = append(r.descOps, "resp(queued together with the previous one)")
-	}
 	if st.Recv != nil {
 		if sy := r.tab.lookup(st.Recv); sy == nil || !sy.honest || !cryptoAuthentic(st.Recv, r.ids[1]) {
 			cl := "unknown"
@@ -707,6 +758,25 @@ func (r *scriptRunner) recvGot() []*signaling_rpc.SessionMsg {
 		if done, ok, m := c.result(); done && ok {
 			out = append(out, m)
 		}
+	}
+	return out
+}
+
+func (r *scriptRunner) allStreams() []*scriptStream {
+	r.sc.mu.Lock()
+	defer r.sc.mu.Unlock()
+	return append([]*scriptStream(nil), r.sc.streams...)
+}
+
+// wireForm is the response as the receiver decodes it into a fresh object.
+func wireForm(r *signaling_rpc.SessionResponse) *signaling_rpc.SessionResponse {
+	b, err := r.MarshalVT()
+	if err != nil {
+		panic(err)
+	}
+	out := &signaling_rpc.SessionResponse{}
+	if err := out.UnmarshalVT(b); err != nil {
+		panic(err)
 	}
 	return out
 }
